@@ -140,6 +140,27 @@ theorem mapRemove_cons (p : Bytes × β) (m : Map β) (k : Bytes) :
   · simp [h]
   · simp [h]
 
+theorem mapGet_mapInsert' {β : Type} (m : Map β) (k : Bytes) (v : β) (k' : Bytes) :
+    mapGet (mapInsert m k v) k' = if k = k' then some v else mapGet m k' := by
+  induction m with
+  | nil =>
+    simp only [mapInsert, mapGet_cons, mapGet_nil]
+    by_cases h : k = k' <;> simp [h]
+  | cons p r ih =>
+    obtain ⟨a, b⟩ := p
+    simp only [mapInsert]
+    by_cases ha : a = k
+    · subst ha
+      simp only [BEq.rfl, ↓reduceIte, mapGet_cons]
+      by_cases h : a = k' <;> simp [h]
+    · have hak : (a == k) = false := by simpa using ha
+      simp only [hak, Bool.false_eq_true, ↓reduceIte, mapGet_cons, ih]
+      by_cases h : a = k'
+      · have : ¬ k = k' := fun e => ha (h.trans e.symm)
+        simp [h, this]
+      · have : (a == k') = false := by simpa using h
+        simp [this]
+
 /-! ### `keyNat` is injective -/
 
 theorem keyNat_pos (b : UInt8) (r : Bytes) : 0 < keyNat (b :: r) := by
@@ -258,5 +279,107 @@ theorem mapGet_canon {m : Map β} (hd : Distinct m) (k : Bytes) : mapGet (canon 
   mapGet_perm hd (canon_perm_self m) k
 
 theorem canon_distinct {m : Map β} (hd : Distinct m) : Distinct (canon m) := hd.perm (canon_perm_self m)
+
+/-! ### lookups through filters -/
+
+theorem mapGet_filter_key (m : Map Bytes) (q : Bytes → Bool) (k : Bytes) :
+    mapGet (m.filter (fun e => q e.1)) k = if q k then mapGet m k else none := by
+  induction m with
+  | nil => simp
+  | cons p r ih =>
+    rw [List.filter_cons]
+    by_cases hp : p.1 = k
+    · subst hp
+      by_cases hq : q p.1 = true
+      · simp [hq, mapGet_cons]
+      · have hq' : q p.1 = false := by simpa using hq
+        simp only [hq', Bool.false_eq_true, ↓reduceIte]
+        rw [ih]
+        simp [hq']
+    · have hpk : (p.1 == k) = false := by simpa using hp
+      by_cases hq : q p.1 = true
+      · simp only [hq, ↓reduceIte, mapGet_cons, hpk, Bool.false_eq_true]
+        exact ih
+      · have hq' : q p.1 = false := by simpa using hq
+        simp only [hq', Bool.false_eq_true, ↓reduceIte, mapGet_cons, hpk]
+        exact ih
+
+theorem mapGet_mapRemove_ne (m : Map Bytes) {k' k : Bytes} (h : k' ≠ k) : mapGet (mapRemove m k') k = mapGet m k := by
+  have := mapGet_filter_key m (fun x => x != k') k
+  unfold mapRemove
+  rw [this]
+  have : (k != k') = true := by simpa using (Ne.symm h)
+  simp [this]
+
+theorem mapGet_mapRemove_self (m : Map Bytes) (k : Bytes) : mapGet (mapRemove m k) k = none := by
+  have := mapGet_filter_key m (fun x => x != k) k
+  unfold mapRemove
+  rw [this]
+  simp
+
+/-! ### tables of optional values -/
+
+def present (sk : List (Bytes × Option Bytes)) : List (Bytes × Bytes) :=
+  sk.flatMap fun e => match e.2 with
+    | some v => [(e.1, v)]
+    | none => []
+
+theorem present_append (a b : List (Bytes × Option Bytes)) : present (a ++ b) = present a ++ present b := by
+  simp [present]
+
+/-- lookup in the table (first match) -/
+def tableGet : List (Bytes × Option Bytes) → Bytes → Option Bytes
+  | [], _ => none
+  | (k', o) :: r, k => if k' == k then o else tableGet r k
+
+theorem mapGet_present (sk : List (Bytes × Option Bytes)) (hd : (sk.map (·.1)).Nodup) (k : Bytes) :
+    mapGet (present sk) k = tableGet sk k := by
+  induction sk with
+  | nil => rfl
+  | cons e r ih =>
+    obtain ⟨k', o⟩ := e
+    have hd' := List.nodup_cons.mp hd
+    have hrest := ih hd'.2
+    show mapGet (present ([(k', o)] ++ r)) k = _
+    rw [present_append]
+    simp only [tableGet]
+    by_cases hk : k' = k
+    · subst hk
+      have hnot : ¬ HasKey (present r) k' := by
+        rintro ⟨p, hp, hpk⟩
+        simp only [present, List.mem_flatMap] at hp
+        obtain ⟨e, he, hpe⟩ := hp
+        apply hd'.1
+        refine List.mem_map.mpr ⟨e, he, ?_⟩
+        cases ho : e.2 with
+        | none => simp [ho] at hpe
+        | some v => simp only [ho, List.mem_singleton] at hpe; rw [hpe] at hpk; exact hpk
+      cases o with
+      | none =>
+        simp only [present, List.flatMap_cons, List.flatMap_nil, List.append_nil, List.nil_append, BEq.rfl, ↓reduceIte]
+        exact mapGet_none_of_not_hasKey hnot
+      | some v =>
+        simp [present, mapGet_cons]
+    · have hkk : (k' == k) = false := by simpa using hk
+      simp only [hkk, Bool.false_eq_true, ↓reduceIte]
+      rw [← hrest]
+      cases o with
+      | none => simp [present]
+      | some v => simp [present, mapGet_cons, hkk]
+
+theorem hasKey_of_mapGet_none {m : Map Bytes} {k : Bytes} (h : mapGet m k = none) : ¬ HasKey m k := by
+  induction m with
+  | nil => exact not_hasKey_nil k
+  | cons p r ih =>
+    rw [mapGet_cons] at h
+    by_cases hp : p.1 = k
+    · simp [hp] at h
+    · have : (p.1 == k) = false := by simpa using hp
+      rw [this] at h
+      simp only [Bool.false_eq_true, ↓reduceIte] at h
+      intro hk
+      rcases hasKey_cons.mp hk with h1 | h1
+      · exact hp h1
+      · exact ih h h1
 
 end Gd.Gs
